@@ -115,6 +115,27 @@ impl FeatureSpec {
                 .unwrap_or_else(|e| {
                     panic!("harness: cannot parse rendered feature: {e}\n{text}")
                 });
+        // The rendered text must parse back to exactly the described
+        // structure (guards against quirks of the Gherkin grammar).
+        let shape = |scs: &[gherkin::Scenario]| {
+            scs.iter()
+                .map(|s| (s.name.clone(), s.steps.len()))
+                .collect::<Vec<_>>()
+        };
+        let want = |scs: &[ScenarioSpec]| {
+            scs.iter()
+                .map(|s| (s.name.clone(), s.steps.len()))
+                .collect::<Vec<_>>()
+        };
+        assert!(
+            shape(&f.scenarios) == want(&self.scenarios)
+                && f.rules.len() == self.rules.len()
+                && f.rules.iter().zip(&self.rules).all(|(a, b)| {
+                    a.name == b.name && shape(&a.scenarios) == want(&b.scenarios)
+                }),
+            "harness: rendered feature does not parse back to its \
+             description:\n{text}",
+        );
         f.path = self
             .path
             .then(|| PathBuf::from(format!("/features/{}.feature", self.name)));
